@@ -183,20 +183,7 @@ Qed.
 Lemma blocking_waits : run (w_cfg Block) init [Ingress w_e1; Recv 0; Route 0; Ingress w_e2; Recv 0; Route 0] = None.
 Proof. vm_compute. reflexivity. Qed.
 
-(* ---- deadlock freedom on ranked context graphs ---- *)
-(* every cross-context forward goes to a context with a larger index *)
-Definition ranked (cfg : config) : Prop :=
-  forall s t, In s (prog cfg) -> route (prog cfg) (s_name s) = Some t -> t <> s_ctx s -> s_ctx s < t.
-Definition rankedb (cfg : config) : bool :=
-  forallb (fun s => match route (prog cfg) (s_name s) with
-                    | Some t => Nat.eqb t (s_ctx s) || Nat.ltb (s_ctx s) t
-                    | None => true end) (prog cfg).
-Lemma rankedb_sound : forall cfg, rankedb cfg = true -> ranked cfg.
-Proof.
-  intros cfg H s t Hin Hr Hne. unfold rankedb in H. rewrite forallb_forall in H. specialize (H s Hin). rewrite Hr in H.
-  apply orb_prop in H. destruct H as [H|H]; [apply Nat.eqb_eq in H; contradiction | apply Nat.ltb_lt in H; exact H].
-Qed.
-
+(* ---- well-formedness of the engine output queues (used by the progress theorem, Ctx/ProofsLive.v) ---- *)
 (* every queued engine output of context c is the output of one of c's own streams *)
 Definition outq_wf (cfg : config) (s : state) : Prop :=
   forall c e, In e (outq (cs s c)) -> exists st, In st (prog cfg) /\ s_ctx st = c /\ s_name st = e_ty e.
